@@ -1156,18 +1156,18 @@ def execute_obs(case, ctx):
 
 SUBS = [
     Sub("loader_roundtrip", execute_a, strategy=lambda tier: cases_a(tier),
-        budget={"quick": 6400, "thorough": 64000}, shards=16),
+        budget={"quick": 12800, "thorough": 64000}, shards=16),
     Sub("env_dataset", execute_env, strategy=lambda tier: cases_env(tier),
-        budget={"quick": 1280, "thorough": 12800}, shards=16),
+        budget={"quick": 2560, "thorough": 12800}, shards=16),
     Sub("module_phases", execute_ph, strategy=lambda tier: cases_ph(tier),
-        budget={"quick": 512, "thorough": 5120}, shards=16),
+        budget={"quick": 1024, "thorough": 5120}, shards=16),
     Sub("rollout_wrap", execute_b, strategy=lambda tier: cases_b(tier),
-        budget={"quick": 256, "thorough": 2560}, shards=16, weight=3.0),
+        budget={"quick": 512, "thorough": 2560}, shards=16, weight=3.0),
     Sub("loader_workers", execute_a, strategy=lambda tier: cases_workers(tier),
-        budget={"quick": 32, "thorough": 480}, shards=16, weight=2.0),
+        budget={"quick": 64, "thorough": 480}, shards=16, weight=2.0),
     Sub("epoch_hooks", execute_hooks, strategy=lambda tier: hook_cases(tier),
-        budget={"quick": 112, "thorough": 1280}, shards=16, weight=3.0),
+        budget={"quick": 224, "thorough": 1280}, shards=16, weight=3.0),
     Sub("mdam_wrap", execute_mdam, strategy=lambda tier: mdam_cases(tier),
-        budget={"quick": 24, "thorough": 320}, shards=16, weight=2.0),
+        budget={"quick": 48, "thorough": 320}, shards=16, weight=2.0),
     Sub("observations", execute_obs, enumerate=_observations, shards=1, weight=0.1),
 ]
